@@ -871,7 +871,9 @@ class TrueTypeFont:
                         for c in range(sc, ec + 1):
                             char2gid[c] = (c + idd) & 0xFFFF
             else:
-                assert False, str(("Unhandled", fmttype))
+                # a subtable format this reader does not know (6, 12, ...)
+                # is skipped; the others may still map the characters
+                log.debug("Unhandled cmap subtable format %r", fmttype)
         if not char2gid:
             raise TrueTypeFont.CMapNotFound
         # create unicode map
